@@ -7,6 +7,30 @@ import sys
 from .core import env
 
 
+def replay(prop, mod, path):
+    """Replay a violation file: precise re-execution where the witness carries a history, else re-run the quick tier."""
+    import json
+    import os
+    import subprocess
+    import tempfile
+
+    rc = None
+    if hasattr(mod, "configs"):
+        from .checks import e1common
+
+        rc = e1common.replay_witness(prop, path, mod.configs)
+    if rc is not None:
+        return rc
+    sig = json.load(open(path)).get("signature", "")
+    out = tempfile.mkdtemp(prefix="xvreplay-", dir=os.environ.get("XV_SCRATCH") or "/dev/shm")
+    e = dict(os.environ, XV_OUT=out)
+    p = subprocess.run([sys.executable, "-W", "ignore", "-m", "xv", prop, "--tier", "quick"], env=e, stdout=subprocess.PIPE, stderr=subprocess.STDOUT, text=True)
+    hit = sig in p.stdout
+    print(json.dumps(json.load(open(path)).get("witness"), indent=1, ensure_ascii=False)[:3000])
+    print("REPRODUCED" if hit else "NOT REPRODUCED by the quick tier (try --tier thorough)")
+    return 1 if hit else 0
+
+
 def main(argv):
     ap = argparse.ArgumentParser(prog="xv")
     ap.add_argument("what")
@@ -21,7 +45,7 @@ def main(argv):
     if what.upper().startswith("C") and what[1:].isdigit():
         mod = importlib.import_module("xv.checks.%s" % what.lower())
         if args.replay:
-            return mod.replay(args.replay)
+            return replay(what.upper(), mod, args.replay)
         return mod.run(tier, workers=args.workers)
     mod = importlib.import_module("xv.cmds.%s" % what)
     return mod.main(args)
